@@ -7,6 +7,7 @@ import (
 	"encoding/binary"
 	"errors"
 	"fmt"
+	"strings"
 )
 
 var _ = errors.New
@@ -49,5 +50,23 @@ var _ = binary.BigEndian
 
 //@ ext errors.New func(text string) (err error)
 //@ ensures err != nil
+//@ assigns none
+//@ end
+
+// strings.Join / strings.Split over an opaque joining function of the list contents.
+//
+//@ spec opaque
+func JoinOf(elems []string, sep string) string { return strings.Join(elems, sep) }
+
+//@ ext strings.Join func(elems []string, sep string) (res string)
+//@ ensures res == JoinOf(elems, sep)
+//@ assigns none
+//@ end
+
+// Split with a non-empty separator returns at least one element and joins back to the input.
+//
+//@ ext strings.Split func(s string, sep string) (res []string)
+//@ requires len(sep) > 0
+//@ ensures len(res) >= 1 && fresh(res) && JoinOf(res, sep) == s
 //@ assigns none
 //@ end
